@@ -110,25 +110,16 @@ Proof.
   destruct s as [|c' s]; [reflexivity|]. cbn [map removelast] in *. now rewrite IH.
 Qed.
 
-(* the tie the model suggests, `gen_validate_fingerprint fp = fp_valid fp`, is FALSE: the `$` of the pattern accepts a
-   final line feed (witness below; the real _validate_fingerprint returns True on it).  What holds: *)
-Lemma validate_fingerprint_tie_partial : forall fp,
-  gen_validate_fingerprint fp = fp_valid fp || (ends_lf fp && fp_valid (removelast fp)).
+(* the `$` of the pattern accepts a final line feed: a first version of the model (now Tofu.fp_strict) did not, and the tie
+   was false on "sha256:" + 64 hex digits + "\n"; Tofu.fp_valid follows the code since *)
+Lemma validate_fingerprint_tie : forall fp, gen_validate_fingerprint fp = fp_valid fp.
 Proof.
-  intro fp. unfold gen_validate_fingerprint. cbv zeta. unfold re_match_anchored.
+  intro fp. unfold gen_validate_fingerprint, fp_valid. cbv zeta. unfold re_match_anchored.
   change (re_lit (lit "sha256:") ++ [(RClass [(48%N, 57%N); (97%N, 102%N)], 64)]) with fp_items.
   rewrite !fullmatch_fp, ends_lf_lower, removelast_lower.
-  change (fp_shape (lower fp)) with (fp_valid fp). change (fp_shape (lower (removelast fp))) with (fp_valid (removelast fp)).
-  destruct (fp_valid fp || _); reflexivity.
+  change (fp_shape (lower fp)) with (fp_strict fp). change (fp_shape (lower (removelast fp))) with (fp_strict (removelast fp)).
+  destruct (fp_strict fp || _); reflexivity.
 Qed.
-
-Lemma validate_fingerprint_tie_no_lf : forall fp, ends_lf fp = false -> gen_validate_fingerprint fp = fp_valid fp.
-Proof. intros fp H. rewrite validate_fingerprint_tie_partial, H. apply orb_false_r. Qed.
-
-Definition fp_counterexample : str := lit "sha256:" ++ repeat 97%N 64 ++ [10%N].
-Lemma validate_fingerprint_tie_false :
-  gen_validate_fingerprint fp_counterexample = true /\ fp_valid fp_counterexample = false.
-Proof. split; vm_compute; reflexivity. Qed.
 
 (* ---------- TOFUDatabase.import_toml: the transaction (optional DELETE, the per-entry loop, COMMIT) ---------- *)
 Lemma port_check (i : bool) (x : Z) :
@@ -168,24 +159,10 @@ Lemma import_toml_tie : forall cb s merge es now,
   obs (gen_import_toml fp_valid s merge cb es now) = import_stmts cb s merge (to_entries es).
 Proof. intros. apply import_toml_tie_gen. apply Forall_forall. intros x _. reflexivity. Qed.
 
-(* with the code's own _validate_fingerprint: only for files without a fingerprint that ends in a line feed *)
-Lemma import_toml_code_tie_partial : forall cb s merge es now,
-  Forall (fun ke => ends_lf (pe_fp (snd ke)) = false) es ->
+(* with the code's own _validate_fingerprint *)
+Lemma import_toml_code_tie : forall cb s merge es now,
   obs (gen_import_toml gen_validate_fingerprint s merge cb es now) = import_stmts cb s merge (to_entries es).
-Proof.
-  intros cb s merge es now H. apply import_toml_tie_gen. revert H. apply Forall_impl.
-  intros ke H. apply validate_fingerprint_tie_no_lf, H.
-Qed.
-
-Definition import_counterexample : list (str * pyentry) :=
-  [(lit "h:1965", {| pe_keys := [lit "hostname"; lit "port"; lit "fingerprint"; lit "first_seen"; lit "last_seen"];
-                     pe_host := lit "h"; pe_port := {| dv := 1965; dv_is_int := true |};
-                     pe_fp := fp_counterexample; pe_first := lit "x" |})].
-Lemma import_toml_code_tie_false :
-  obs (gen_import_toml gen_validate_fingerprint [] true None import_counterexample [])
-  = ([SInsert {| r_host := lit "h"; r_port := 1965; r_fp := fp_counterexample; r_first := lit "x" |}; SCommit], true)
-  /\ import_stmts None [] true (to_entries import_counterexample) = ([], false).
-Proof. split; vm_compute; reflexivity. Qed.
+Proof. intros. apply import_toml_tie_gen. apply Forall_forall. intros x _. apply validate_fingerprint_tie. Qed.
 
 Lemma get_single_tofu_tie : forall s h p c now,
   gen_get_single_tofu (fun s h p c => gen_verify s h p c now) gen_get_host_info (fun s h p c => gen_trust s h p c now) s h p c
